@@ -134,7 +134,7 @@ func runC08Gate(o *opts) (*summary, error) {
 	mk := func(bindPort int) (uhppote.IUHPPOTE, *gateDriver) {
 		var g *gateDriver
 		bind := types.BindAddr{AddrPort: netip.AddrPortFrom(netip.AddrFrom4([4]byte{127, 0, 0, 1}), uint16(bindPort))}
-		u := uhppote.NewUHPPOTEWithDriver(bind, types.BroadcastAddr{AddrPort: udpAddrPort(bc)}, types.ListenAddr{}, 400*time.Millisecond, devices, false,
+		u := uhppote.NewUHPPOTEWithDriver(bind, types.BroadcastAddr{AddrPort: udpAddrPort(bc)}, types.ListenAddr{}, 3*time.Second, devices, false,
 			func(d uhppote.Driver) uhppote.Driver {
 				g = &gateDriver{inner: d, held: make(chan struct{}, 1), release: make(chan struct{})}
 				return g
